@@ -281,8 +281,11 @@ class C01(PokerProp):
                     why.append(f"step {e.i} {e.op}: payouts {o['pay']} + rake {o['rake']} != pot {sum(o['pot'])}"); break
                 if min(o["pay"]) < -1e-9:
                     why.append(f"step {e.i}: negative payout {o['pay']}"); break
-                # (rounding of the float pnl figures is relative to their own size, not to the size of their sum)
-                if o["pnl"] != "!" and abs(sum(o["pnl"]) + sum(o["rake"])) > 1e-9 * max(1.0, max(abs(x) for x in o["pnl"])):
+                # (rounding of the float pnl figures is relative to the largest figure that went into them -- pnl = payout +
+                #  stack - starting stack cancels ten-digit stacks on a deep table --, not to the size of their sum)
+                big = max([1.0] + [abs(x) for x in o["pnl"]] + [abs(float(x)) for x in case["stacks"]] + [abs(float(x)) for x in o["pay"]]) \
+                    if o["pnl"] != "!" else 1.0
+                if o["pnl"] != "!" and abs(sum(o["pnl"]) + sum(o["rake"])) > 1e-9 * big:
                     why.append(f"step {e.i}: pnl {o['pnl']} does not sum to minus the rake {sum(o['rake'])}"); break
         return why
 
